@@ -28,6 +28,9 @@ def rand_levels(rng: random.Random, prefix: str, k: int) -> list[str]:
     out = []
     while len(out) < k:
         lv = prefix + "".join(rng.choice(SAFE) for _ in range(rng.randint(1, 3)))
+        r = rng.random()
+        if r < 0.12:  # labels that begin with an underscore, a digit or an upper-case letter are labels like any other
+            lv = rng.choice(["_", "_", "9", "Z"]) + lv
         if lv not in out:
             out.append(lv)
     return out
